@@ -80,7 +80,10 @@ const VM_TABLE: &[(&str, Cover)] = &[
     ("vm.map.equal m == x / x == m / inside tuples", Cover::Exact(&["m.eq", "m.eq.rhs", "m.eq.tuple", "m.eq.tuple_rhs"])),
     ("vm.map.not_equal m != x / x != m", Cover::Exact(&["m.ne", "m.ne.rhs"])),
     ("vm.map.iteration (for)", Cover::Compound(&["map.for"])),
-    ("vm.map.index_assign m[i] = (k, v)", Cover::NoData("NOT COVERED: replaces an entry by swap_remove + insert + swap_indices under one guard; panics on a duplicate key (F-C06-4), kept out")),
+    ("vm.map.index_assign m[i] = (k, v)", Cover::Exact(&["m.set_at"])),
+    ("libs serializers json / yaml / toml to_string (koto_serde)", Cover::Exact(&["l.json", "l.yaml", "m.json", "m.yaml"])),
+    ("libs toml.to_string", Cover::NoData("same koto_serde serializer as json / yaml; toml rejects null values and top-level lists, so it is not part of the mixes")),
+    ("vm.add `l + l` / `m + m` (the same container on both sides)", Cover::NoData("forms l.concat / same-operand family; NOTE `a + b` reads each operand under its own guard, one after the other (two brackets, also for `l + l`): each half is one state of its operand, the two halves need not be the same state")),
     ("tuple / string", Cover::NoData("immutable (Ptr<[KValue]> / Ptr<str>): no cell, nothing to lock; a tuple holding a list shares that list's cell")),
 ];
 
@@ -276,6 +279,11 @@ fn make_form(tag: &str, rng: &mut Rng, len: usize, vals: &[i64], t: i64) -> Op {
         "l.size" => Op::Size,
         "l.copy" => Op::SnapVia("copy"),
         "l.deep_copy" => Op::SnapVia("deep_copy"),
+        "l.json" => Op::SnapVia("json"),
+        "l.yaml" => Op::SnapVia("yaml"),
+        "m.json" => Op::MSnapVia("json"),
+        "m.yaml" => Op::MSnapVia("yaml"),
+        "m.set_at" => Op::MSetAt(near(rng), if rng.chance(1, 2) { some_val } else { vals.first().copied().unwrap_or(1) % 10 + if vals.iter().all(|k| *k < 10) { 0 } else { 500 } }, new),
         "l.match.last" => Op::LastVia("match"),
         "l.arg.last" => Op::LastVia("arg"),
         "l.match.first" => Op::FirstVia("match"),
@@ -337,7 +345,7 @@ fn gen_pair(rng: &mut Rng, tag: &'static str, big: bool, n_threads: usize, round
             for j in 0..n_ops {
                 let k = if keys.is_empty() || rng.chance(1, 3) { base + if big { 400 + rng.range(0, 99) } else { rng.range(4, 9) } } else { *rng.pick(&keys) };
                 let v = 600_000 + t as i64 * 1000 + j as i64;
-                p.push(match rng.weighted(&[5, 2, 3, 5, 1, 3, 1]) {
+                p.push(match rng.weighted(&[5, 2, 3, 5, 1, 3, 1, 3]) {
                     0 => Op::Ins(k, v),
                     1 => Op::Ins1(k),
                     2 => Op::Put(k, v),
@@ -345,7 +353,8 @@ fn gen_pair(rng: &mut Rng, tag: &'static str, big: bool, n_threads: usize, round
                     4 => Op::MClear,
                     // one operation that changes several entries
                     5 => Op::MExtend(keys.iter().take(12).map(|k| (*k, v)).collect()),
-                    _ => Op::MSort,
+                    6 => Op::MSort,
+                    _ => Op::MSetAt(rng.below(3), k, v),
                 });
             }
             progs.push(p);
